@@ -632,6 +632,8 @@ fn gen_history(rng: &mut Rng, thorough: bool, flavour: u64, partial_beacons: boo
 }
 
 struct Outcome {
+    /// the canonical chain changed after the last import (premise of the property not met)
+    late_mutation: bool,
     oks: Vec<bool>,
     deep: bool,
     stale: bool,
@@ -647,6 +649,7 @@ async fn run_history(h: &History, work: &PathBuf, id: u64) -> Outcome {
     let mut node = Node::new(work.join(format!("c{}-hist", id)), h.c0.clone(), h.max);
     let mut oks = vec![];
     let mut stale = false;
+    let mut late_mutation = false;
     let mut last_target = None;
     for ev in &h.events {
         match ev {
@@ -668,6 +671,9 @@ async fn run_history(h: &History, work: &PathBuf, id: u64) -> Outcome {
                     let mut s = node.server.lock().unwrap();
                     // mutations not reached during the import happen right after it
                     let rest: Vec<_> = s.pending.drain(..).collect();
+                    // a mutation the import did not reach changes the canonical chain AFTER this
+                    // import: if this is the last import the history does not end with an import
+                    late_mutation = !rest.is_empty();
                     for (_, m) in rest {
                         s.mutate(&m);
                     }
@@ -700,7 +706,7 @@ async fn run_history(h: &History, work: &PathBuf, id: u64) -> Outcome {
         None => None,
     };
     let (deep, echo) = (node.repo.deep.load(Ordering::SeqCst), node.server.lock().unwrap().echo_confusion);
-    Outcome { oks, deep, stale, echo, tables, final_chain, sig, scratch_tables, last_target }
+    Outcome { late_mutation, oks, deep, stale, echo, tables, final_chain, sig, scratch_tables, last_target }
 }
 
 fn eq_pattern(items: &[String]) -> Vec<u64> {
@@ -733,7 +739,7 @@ fn main() {
     std::fs::create_dir_all(&work).unwrap();
     let rt = tokio::runtime::Builder::new_multi_thread().worker_threads(2).enable_all().build().unwrap();
 
-    let n_cases = if args.thorough { 1500 } else { 130 };
+    let n_cases = if args.thorough { 600 } else { 130 };
     for i in 0..n_cases {
         let flavour = [0u64, 1, 1, 2, 2, 3, 4, 4][(i % 8) as usize];
         let mut sub = rng.fork();
@@ -779,7 +785,7 @@ fn main() {
                 why.push(format!("legacy root offered for beacon {} depends on import progress", b));
             }
         }
-        let judged = h.targets_below_tip && o.last_target.is_some();
+        let judged = h.targets_below_tip && o.last_target.is_some() && !o.late_mutation;
         let holds = if judged { Some(why.is_empty()) } else { None };
         let known = if holds == Some(false) {
             if o.deep {
